@@ -50,9 +50,14 @@ var errMetaFenced = errors.New("oxsim: metadata store: client incarnation is gon
 
 func (h *simMetaHandle) Close() error { return nil }
 
+// gone blocks forever: a crashed coordinator incarnation never gets an answer from the
+// metadata store (returning an error instead would make the zombie panic in oxia's retry
+// path, which logs through a nil logger).
+func gone() { <-make(chan struct{}) }
+
 func (h *simMetaHandle) Get() (*model.ClusterStatus, metadata.Version, error) {
 	if h.ep.Dead() {
-		return nil, "", errMetaFenced
+		gone()
 	}
 	m := h.m
 	m.mu.Lock()
@@ -73,7 +78,7 @@ func (h *simMetaHandle) Store(cs *model.ClusterStatus, expected metadata.Version
 		time.Sleep(time.Duration(H(m.r.Seed, "meta-delay", n)%uint64(m.DelayMax)) + 1)
 	}
 	if h.ep.Dead() {
-		return "", errMetaFenced
+		gone()
 	}
 	if m.FailPct > 0 && int(H(m.r.Seed, "meta-fail", n)%100) < m.FailPct {
 		m.r.Count("meta_store_failed", 1)
